@@ -1,5 +1,6 @@
 import Gomjml.Core.Cdata
 import Gomjml.Core.Lines
+import Gomjml.Core.TextFlow
 /-! # What the XML layer delivers for the content of an mj-text (`wrapMJTextContent` followed by the CDATA decoding)
 
 `Cdata.lean` proves the round trip for its own Model of the escaping (`Rr`); `Lines.lean` has the byte-exact Model of the
@@ -386,5 +387,77 @@ theorem wrapInner_delivered_cdata (inner t : List B) (h : cdStart.isPrefixOf (in
 /-- non-vacuity: `<![CDATA[a]]> &lt;` — the author's text is `a &lt;`, the escape as he wrote it -/
 example : authorText 20 [60, 33, 91, 67, 68, 65, 84, 65, 91, 97, 93, 93, 62, 32, 38, 108, 116, 59] = some [97, 32, 38, 108, 116, 59] := by
   decide
+
+end Gomjml.Lines
+
+/-! ### from the source to the inner HTML of the rendered mj-text -/
+
+namespace Gomjml.Lines
+open Gomjml.Amp Gomjml.Passes Gomjml.TextFlow
+
+theorem ink_append (a b : List B) : ink (a ++ b) = ink a ++ ink b := by simp [ink]
+
+theorem ink_trimRightSp (s : List B) : ink (trimRightSp s) = ink s := by
+  unfold trimRightSp
+  induction hr : s.reverse generalizing s with
+  | nil => simp [List.reverse_eq_nil_iff.mp hr, ink]
+  | cons b r ih =>
+    have hs : s = r.reverse ++ [b] := by
+      have := congrArg List.reverse hr; simpa using this
+    subst hs
+    by_cases h : (b == 32) = true
+    · have hb : b = 32 := by simpa using h
+      subst hb
+      simp only [List.dropWhile_cons, h, if_true]
+      have := ih r.reverse (by simp)
+      rw [this, ink_append]
+      simp [ink, Gomjml.TextFlow.isWs]
+    · simp [List.dropWhile_cons, h]
+
+/-- the void-tag normalisation of the pre-pass moves blanks only: every other byte stays, in order -/
+theorem voidNormF_ink (names : List (List B)) : ∀ (fuel : Nat) (s : List B), ink (voidNormF names fuel s) = ink s
+  | 0, s => by simp [voidNormF]
+  | fuel + 1, [] => by simp [voidNormF]
+  | fuel + 1, b :: rest => by
+    unfold voidNormF
+    by_cases hb : (b == 60) = true
+    · simp only [hb, if_true]
+      split
+      · rename_i pre after hv
+        have hs := voidAt_split names rest pre after hv
+        have hb' : b = 60 := by simpa using hb
+        subst hb'
+        simp only [ink_append, ink_trimRightSp, voidNormF_ink names fuel after]
+        rw [hs]
+        simp only [← List.cons_append, ink_append]
+        simp [ink, Gomjml.TextFlow.isWs]
+      · have : ∀ (x : B) (l : List B), ink (x :: l) = ink [x] ++ ink l := fun x l => by rw [← ink_append]; rfl
+        rw [this, this b rest, voidNormF_ink names fuel rest]
+    · have hb' : (b == 60) = false := by simpa using hb
+      simp only [hb', Bool.false_eq_true, if_false]
+      have : ∀ (x : B) (l : List B), ink (x :: l) = ink [x] ++ ink l := fun x l => by rw [← ink_append]; rfl
+      rw [this, this b rest, voidNormF_ink names fuel rest]
+
+theorem voidNorm_ink (s : List B) : ink (voidNorm s) = ink s := voidNormF_ink _ _ s
+
+/-- **mj-text, end to end**: for content that does not begin with a CDATA section and has no no-break space, the inner HTML
+    the component writes (`TextFlow.textInner` of what the XML layer delivered) keeps every byte of the author's content that is
+    not white space, in order — through the pre-pass (void tags, `]]>` escaping), the CDATA decoding and the white-space
+    collapsing -/
+theorem text_end_to_end (inner : List B) (h : cdStart.isPrefixOf (inner.dropWhile Gomjml.Passes.isWs) = false)
+    (hc : ∀ b ∈ inner, b ≠ 0xC2) :
+    ∃ x, cdataDecode (wrapInner inner) = some x ∧ ink (textInner x) = ink inner := by
+  refine ⟨voidNorm inner, wrapInner_delivered inner h, ?_⟩
+  have hv : ∀ b ∈ voidNorm inner, b ≠ 0xC2 := by
+    intro b hb hbc
+    subst hbc
+    have hw : Gomjml.TextFlow.isWs 0xC2 = false := by decide
+    have hin : (0xC2 : B) ∈ ink (voidNorm inner) := by
+      unfold ink; rw [List.mem_filter]; exact ⟨hb, by simp [hw]⟩
+    rw [voidNorm_ink] at hin
+    unfold ink at hin
+    rw [List.mem_filter] at hin
+    exact hc _ hin.1 rfl
+  rw [textInner_ink (voidNorm inner) hv, voidNorm_ink]
 
 end Gomjml.Lines
